@@ -218,16 +218,12 @@ func (a *taintAn) flow(fn *ssa.Function, storeI *types.Interface, out *[]taintFi
 					progress = set(x, get(x.X)) || progress
 				case *ssa.Extract:
 					// per-component taint when the tuple is the result of functions under analysis
-					if call, ok := x.Tuple.(*ssa.Call); ok {
+					if call, ok := x.Tuple.(*ssa.Call); ok && !call.Call.IsInvoke() && !(a.srcCall != nil && a.srcCall(call)) {
+						// (calls through an interface - the Store - and source calls keep the taint
+						// of the whole tuple: that is where ownership is introduced)
 						var cs []*ssa.Function
 						if sc := call.Call.StaticCallee(); sc != nil {
 							cs = append(cs, sc)
-						} else if node := a.c.P.CallGraph().Nodes[fn]; node != nil {
-							for _, e := range node.Out {
-								if e.Site == ssa.CallInstruction(call) {
-									cs = append(cs, e.Callee.Func)
-								}
-							}
 						}
 						all := len(cs) > 0
 						var rt taintBits
